@@ -177,6 +177,7 @@ def c11_events(ctx, binp):
             continue
         last = [e for e in evs if e["ev"] == "e2e-conn-done"][-1]
         runs.append(dict(kind="predict", settings=settings, fps=fps, model=model, model_events=mev, result=last, scen_name="c11_%d" % k,
+                         bus=[e for e in evs if e["ev"] == "e2e-end"][-1]["bus"],
                          scen=scen,
                          expected_motion={k2.replace("-", ""): (("true" if v else "false") if isinstance(v, bool) else str(v))
                                           for k2, v in settings["motion"].items()}))
@@ -204,6 +205,12 @@ def system_trace(runs):
         res = r["result"]
         out.append(dict(ev="files", motion=[f.get("ids", []) for f in res["files"] if f["kind"] == "final"],
                         constant=[f.get("ids", []) for f in res["constant"] if f["kind"] == "final"], ntest=r.get("ntest", 0)))
+        if r.get("bus") is not None:
+            bus = r["bus"]
+            out.append(dict(ev="bus", ffc=[c["args"] == "true" for c in bus if c["member"] == "SetAutoFFC"],
+                            restarts=sum(1 for c in bus if c["member"] == "RestartCamera"),
+                            badevents=sum(1 for c in bus if c["member"] == "Add" and "bad-thermal-frame" in c["args"]),
+                            ntest=r.get("ntest", 0)))
         index.append((len(out), ri))
     return out, index
 
@@ -236,7 +243,14 @@ def judge_c11(ctx, runs, binp=None, second_pass=False):
         ri = [x for (ln, x) in index if ln == line][0]
         run = runs[ri]
         for tg in re.findall(r'"([^"]+)"', m.group(2)):
-            key = "C11:settings-do-not-shape-files[" + tg.split(":")[1] + "]"
+            if tg in ("SYS:camera-restart-requests", "SYS:bad-frame-events"):
+                key = "C13:e2e-" + tg.split(":")[1]           # the daemon-level half of C13 (report + camera restart)
+            elif tg.startswith("SYS:auto-ffc"):
+                ctx.notes.append("beyond the listed properties: %s (run %d)" % (tg, ri))
+                print("NOTE: %s in e2e run %d (automatic FFC bracketing is modelled but is not one of the listed properties)" % (tg, ri))
+                continue
+            else:
+                key = "C11:settings-do-not-shape-files[" + tg.split(":")[1] + "]"
             rp = vlib.save_replay(ctx, "e2e_%d" % ri, dict(family="files", property="C11", clause=key, settings=run["settings"],
                                   fps=run["fps"], model=run["model"], observed=tr[line - 1], model_events=run["model_events"][:200]))
             violations.append(dict(key=key, replay=rp, what="settings=%s fps=%d model=%s" % (json.dumps(run["settings"]), run["fps"], run["model"])))
@@ -343,4 +357,26 @@ def c17_runs(ctx, binp):
         last = [e for e in evs if e["ev"] == "e2e-conn-done"][-1]
         runs.append(dict(kind="predict", settings=settings, fps=fps, model="lepton3", model_events=ev, result=last, scen=scen,
                          ntest=len(req_at), expected_motion={}))
+    return runs
+
+
+def c13_runs(ctx, binp):
+    """C13 at the daemon: bad Lepton / Boson frames inside socket streams; the files must be the predicted ones, every
+    bad frame must be reported as a 'bad-thermal-frame' event and answered with a camera restart request."""
+    rng = ctx.rng
+    runs = []
+    for k in range(3 if ctx.tier == "quick" else 30):
+        settings, fps = gen_settings(rng)
+        settings["const"] = (k % 2 == 0)
+        model = ["lepton3", "boson", "lepton3.5"][k % 3]
+        conn, ev, fid = build_conn(rng, settings, 4, 3, fps, model, 1, rng.randint(40, 90), with_clear=True, with_bad=True)
+        scen = dict(config=toml(settings), prefiles=[], conns=[conn])
+        try:
+            evs = run_e2e(ctx, binp, scen, "c13_%d" % k)
+        except DaemonCrash as dc:
+            runs.append(dict(kind="crash", settings=settings, fps=fps, model=model, msg=dc.msg, result=dict(files=[], constant=[])))
+            continue
+        last = [e for e in evs if e["ev"] == "e2e-conn-done"][-1]
+        runs.append(dict(kind="predict", settings=settings, fps=fps, model=model, model_events=ev, result=last, scen=scen,
+                         expected_motion={}, bus=[e for e in evs if e["ev"] == "e2e-end"][-1]["bus"]))
     return runs
